@@ -385,7 +385,7 @@ func checkC03(p *Prog, r *Report) {
 
 // checkC03Forwarder checks the dequeue → operator channel part.
 func checkC03Forwarder(p *Prog, r *Report, rFw, rId, rOrd *Rule, top *ssa.Function) {
-	och := p.Field(iobPkg, "Broker", "och")
+	och := brokerChan(p, "CLine")
 	var plain []queueSend
 	for _, f := range withAnons(top) {
 		for _, s := range sendsIn(f) {
@@ -507,13 +507,25 @@ func checkC03Forwarder(p *Prog, r *Report, rFw, rId, rOrd *Rule, top *ssa.Functi
 		}
 	}
 	isHand := func(i ssa.Instruction) bool { return i == ps.Instr }
-	early := reachQ{From: Loc{armIf.Block().Succs[armSucc], -1}, Block: isHand, NoEdges: empty, Target: func(i ssa.Instruction) bool {
-		v, ok := i.(ssa.Value)
-		if !ok {
-			return false
-		}
+	isErrField := func(v ssa.Value) bool {
 		fv := fieldOfLoad(v)
 		return nil != fv && fv != dataF && types.Identical(fv.Type(), types.Universe.Lookup("error").Type())
+	}
+	early := reachQ{From: Loc{armIf.Block().Succs[armSucc], -1}, Block: isHand, NoEdges: empty, Target: func(i ssa.Instruction) bool {
+		/* Taking the field out of the item is not looking at it: what
+		counts is a test, a call or a return using it. */
+		switch i.(type) {
+		case *ssa.BinOp, *ssa.If, *ssa.Return, *ssa.Call, *ssa.Send, *ssa.Go, *ssa.Defer:
+		default:
+			return false
+		}
+		var ops []*ssa.Value
+		for _, o := range i.Operands(ops) {
+			if nil != *o && isErrField(*o) {
+				return true
+			}
+		}
+		return false
 	}}.run()
 	if nil != early {
 		rFw.Bad(fnName(top)+":error-after-handover", posOf(early), "the dequeued item's error is examined before its data has been handed to the operator: a chunk arriving together with the end of the stream can be lost")
